@@ -38,7 +38,7 @@ def modules():
     return out
 
 
-def run(repo, scratch, prop=None):
+def run(repo, scratch, prop=None, thorough=False):
     """Run the leaf checks that serve `prop` (all if None).  Returns a dict:
     {'ran': bool, 'undecided': str|None, 'wall_s': float, 'results': [{test, leaf, cases, outcome, detail, module, bound, props}]}"""
     t0 = time.time()
@@ -62,6 +62,9 @@ def run(repo, scratch, prop=None):
         with open(tgt, 'a', encoding='utf-8') as f:
             f.write('\n\n// ---- appended by /verif/vx/leaf.py (scratch copy only) ----\n' + m['text'])
     env = dict(os.environ, CARGO_NET_OFFLINE='true', CARGO_TARGET_DIR=os.path.join(scratch, 'leaftarget'))
+    env.pop('VX_LEAF_THOROUGH', None)
+    if thorough:
+        env['VX_LEAF_THOROUGH'] = '1'
     cmd = ['cargo', 'test', '--offline', '--lib', '__vx_leafcheck', '--', '--test-threads=8', '--show-output']
     res['cmd'] = 'cd <scratch copy of the repository>/kiki && ' + ' '.join(cmd)
     try:
